@@ -12,8 +12,15 @@
 (*    pt     plaintext <<timestamp, original destination connection id>>            *)
 (* Opening succeeds only with the same key, nonce and additional data on an         *)
 (* undamaged token (that is the AEAD's contract; the real one is trusted).          *)
-(* The contexts are compared component by component: a presentation is described    *)
-(* by which components equal those of the issue (same) and which differ.            *)
+(* The contexts are compared component by component: a presentation says, for each  *)
+(* component, how it relates to the one of the issue: "same", or one of the ways of  *)
+(* being a different value (another key; a connection ID with one bit flipped, cut   *)
+(* short, extended by a zero byte or empty; another address, the same address one    *)
+(* bit away or zero-padded into the other family; a port differing in its low bit   *)
+(* or only in its high byte).  The verdict does not depend on how close the other    *)
+(* value is: anything that is not the issued value is invalid.  The only unclear     *)
+(* case is an IPv4 address presented in its IPv4-mapped IPv6 form: whether that is    *)
+(* "the same client address" is left open (not judged unless something else differs). *)
 (*                                                                                  *)
 (* Time.  d = presentation time - issue time is a pair <<seconds, nanoseconds>>      *)
 (* (0 <= ns < 10^9; TLC integers are 32-bit), V the validity period in whole         *)
@@ -28,6 +35,16 @@
 EXTENDS Integers, Sequences, FiniteSets
 
 Components == {"key", "scid", "dcid", "ip", "port"}
+KeyV  == {"same", "other"}
+ScidV == {"same", "flip", "prefix", "ext0", "empty"}
+DcidV == {"same", "flip", "prefix", "prefix2", "ext0", "empty"}
+IpV   == {"same", "other", "flip", "pad", "mapped"}
+PortV == {"same", "lowbit", "highbyte"}
+Contexts == [key : KeyV, scid : ScidV, dcid : DcidV, ip : IpV, port : PortV]
+SameCtx  == [key |-> "same", scid |-> "same", dcid |-> "same", ip |-> "same", port |-> "same"]
+
+\* some component is certainly not the issued value
+Differs(c) == c.key # "same" \/ c.scid # "same" \/ c.dcid # "same" \/ c.port # "same" \/ c.ip \notin {"same", "mapped"}
 Damages == {"none", "flipnonce", "flipct", "fliptag", "trunc1", "truncshort", "empty", "extend"}
 NS == 1000000000
 
@@ -44,15 +61,17 @@ Window(d, V) ==
     ELSE IF Geq(d, 0 - V) /\ Leq(d, V - 1) THEN "yes"
     ELSE "any"
 
-\* same: the set of components of the presenting context equal to the issuing one
-Expected(same, dmg, d, V) ==
-    IF same # Components \/ dmg # "none" THEN "no" ELSE Window(d, V)
+\* c: the presenting context relative to the issuing one
+Expected(c, dmg, d, V) ==
+    IF Differs(c) \/ dmg # "none" THEN "no"
+    ELSE IF c.ip = "mapped" THEN (IF Window(d, V) = "no" THEN "no" ELSE "any")
+    ELSE Window(d, V)
 
 \* C31 (Retry part): whatever is (or may be) accepted was presented unmodified, from the same
 \* address and port, with the same connection IDs and key, not after its validity period.
-AcceptedOnlyInContext(same, dmg, d, V) ==
-    Expected(same, dmg, d, V) # "no" =>
-        /\ same = Components /\ dmg = "none"
+AcceptedOnlyInContext(c, dmg, d, V) ==
+    Expected(c, dmg, d, V) # "no" =>
+        /\ ~Differs(c) /\ dmg = "none"
         /\ Leq(d, V)
 
 \* an observation of the real validateToken: ok and, when ok, whether the returned original
